@@ -139,6 +139,9 @@ func BytesN(label string, n int) []byte {
 	return b
 }
 
+// OpaqueBytes is a byte slice of length n whose content is irrelevant to the harness.
+func OpaqueBytes(n int) []byte { return make([]byte, n) }
+
 func Choose(label string, n int) int {
 	v := int(num(label))
 	if v < 0 || v >= n {
